@@ -129,12 +129,16 @@ def case_cfg(case: Dict) -> Tuple[Any, Optional[Dict]]:
         return _resolve(case["path"]), None
     if case["src"] == "gen":
         cfg, meta = gen_scenario.build(case["spec"])
+        if case.get("io"):
+            cfg["io_settings"].update(case["io"])
         return cfg, meta
     cfg = load_shipped(case["path"])
     if case.get("max_len"):
         cfg["game"]["max_episode_length"] = case["max_len"]
     if case.get("tweak"):
         TWEAKS[case["tweak"]](cfg, case)
+    if case.get("io"):
+        cfg["io_settings"].update(case["io"])  # e.g. the agent-action log (on by default in PrimAITE, off in the harness)
     return cfg, None
 
 
@@ -239,7 +243,11 @@ def ops_strategy(max_ops: int = 30, gen: bool = True, reset_weight: int = 2):
 def gen_case_strategy(draw, max_ops: int = 30, **kw):
     spec = draw(gen_scenario.spec_strategy(**kw))
     ops = draw(ops_strategy(max_ops, gen=True))
-    return {"src": "gen", "spec": spec, "ops": ops}
+    case = {"src": "gen", "spec": spec, "ops": ops}
+    if draw(st.integers(0, 3)) == 0:
+        # PrimAITE's default: every agent's history is written to a JSON file at reset/close (sessions under HOME)
+        case["io"] = {"save_agent_actions": True}
+    return case
 
 
 @st.composite
